@@ -76,9 +76,10 @@ def c04_reading(args):
             return 'alignment left in role %r' % (t,)
     # the same reading through the public entry point, from the text of the tree
     try:
-        text = penman.format(Tree(node))
-        if penman.parse(text).node != node:
-            return None          # not a tree that is read back from its own text (C01's domain)
+        from .d_text import lex_stable_tree
+        if not (text_shaped(node) and lex_stable_tree(node)):
+            return None          # not a tree that is read back from its own text (C01's domain; decided
+        text = penman.format(Tree(node))     # by the documented lexical grammar, not by the library)
     except Exception:
         return None
     try:
@@ -90,6 +91,18 @@ def c04_reading(args):
     if {k: list(map(repr, v)) for k, v in g2.epidata.items()} != {k: list(map(repr, v)) for k, v in g.epidata.items()}:
         return 'decode(text) attaches other markers than the reading of the tree: %r' % (text[:80],)
     return None
+
+
+def text_shaped(node):
+    """the tree is one the notation can write down: per node at most one concept branch, and first
+    (decided from the documented grammar, independently of the library's parser)"""
+    v, bs = node
+    for i, (r, t) in enumerate(bs):
+        if r == '/' and i != 0:
+            return False
+        if isinstance(t, tuple) and not text_shaped(t):
+            return False
+    return True
 
 
 C04_VARS = ['a', 'b', 'c']
@@ -188,10 +201,11 @@ def c02_roundtrip(args):
         return 'metadata differs'
     # the same through the public entry points: encode(decode(s)) is the normal-form text of s
     try:
-        text = penman.format(Tree(node, metadata=dict(meta)))
+        from .d_text import lex_stable_tree
+        if not (text_shaped(node) and lex_stable_tree(node)):
+            return None        # not a text this tree is read back from (C01's domain, decided by the
+        text = penman.format(Tree(node, metadata=dict(meta)))     # documented lexical grammar)
         want = penman.format(Tree(exp, metadata=dict(meta)))
-        if penman.parse(text).node != node:
-            return None        # not a text this tree is read back from (C01's domain)
         out = with_watchdog(lambda: penman.encode(penman.decode(text, model=model), model=model))
     except Timeout:
         return 'encode(decode(s)) did not terminate within 5 s'
@@ -447,6 +461,30 @@ def run_C03(R):
                     R.rnd.shuffle(h.triples)
                 R.check('C03.encode_decode',
                         {'triples': h.triples, 'epidata': h.epidata, 'top': top, 'model': m})
+    run_C03_model_roles(R)
+
+
+def run_C03_model_roles(R):
+    """hand-built graphs whose edges carry roles drawn from the model's own table (every entry,
+    patterns instantiated), spelled as defined and with an inversion suffix, encoded from every top"""
+    for m in ('amr', 'custom'):
+        own = gens.model_roles(get_model(m))
+        if not own:
+            continue
+        if m == 'amr':
+            for b in own:
+                R.check('C13.model_table', {'model': m, 'role': b})
+        for it in range(150 if R.quick else 3000):
+            r1, r2 = R.rnd.choice(own), R.rnd.choice(own)
+            r1 += R.rnd.choice(['', '-of', '-of'])
+            r2 += R.rnd.choice(['', '', '-of'])
+            ts = [('a', ':instance', 'x'), ('t', ':instance', 'y'), ('c', ':instance', 'z'),
+                  R.rnd.choice([('t', r1, 'a'), ('a', r1, 't')]), R.rnd.choice([('c', r2, 't'), ('t', r2, 'c'), ('a', r2, 'c')])]
+            if len(set(ts)) != len(ts):
+                continue
+            R.rnd.shuffle(ts)
+            for top in ('a', 't', 'c'):
+                R.check('C03.encode_decode', {'triples': ts, 'top': top, 'model': m})
 
 
 def run_C06(R):
@@ -901,6 +939,9 @@ def build_kind(args, model):
                 from penman.surface import Alignment, RoleAlignment
                 if t[1] != ':instance':
                     dec.epidata.setdefault(t, []).insert(0, RoleAlignment((i,), prefix='e.'))
+                    if (i + args.get('edit', 0)) % 3 != 0 and t[2] is not None:
+                        # the target of an edge or attribute (symbol, number or string) is aligned as well
+                        dec.epidata[t].append(Alignment((i + 1,), prefix='e.'))
                 else:
                     dec.epidata.setdefault(t, []).insert(0, Alignment((i, i + 1), prefix='x'))
         return dec
